@@ -98,6 +98,21 @@ func HarnessC11() {
 		x.AllOf = branches
 	}
 	root := &schemas.Type{Type: schemas.TypeList{"object"}, Properties: map[string]*schemas.Type{"x": x}, Required: []string{"x"}}
+	if zzvrt.Param("TWICE", 0) == 1 {
+		// a second composition (generated BEFORE x: properties go in name order) that shares
+		// its first branch with x and adds a branch of its own about another member, c: what it
+		// composes must stay its own -- x knows nothing about c
+		extra := &schemas.Type{Type: schemas.TypeList{"object"}, Properties: map[string]*schemas.Type{
+			"c": {Type: schemas.TypeList{"string"}, MinLength: zzLimit()}}, Required: []string{"c"}}
+		w := &schemas.Type{}
+		if anyOf {
+			w.AnyOf = []*schemas.Type{branches[0], extra}
+		} else {
+			w.AllOf = []*schemas.Type{branches[0], extra}
+		}
+		root.Properties["w"] = w
+		cls += "+w"
+	}
 	sch := &schemas.Schema{ObjectAsType: (*schemas.ObjectAsType)(root), ID: "https://example.com/root", Definitions: defs}
 	g, err := New(Config{DefaultPackageName: "example.com/gen", DefaultOutputName: "root.go", Warner: func(string) {},
 		Tags: []string{"json", "yaml", "mapstructure"}})
@@ -140,6 +155,7 @@ func HarnessC11() {
 		zzvrt.Assume(zzvrt.Or(zzvrt.DIs(d, "x/"+m, zzvrt.KAbsent), zzvrt.DIs(d, "x/"+m, zzvrt.KString)))
 	}
 	zzvrt.Assume(zzvrt.Or(zzvrt.DIs(d, "x/o", zzvrt.KAbsent), zzvrt.DIs(d, "x/o", zzvrt.KObject)))
+	zzvrt.Assume(zzvrt.DIs(d, "w", zzvrt.KAbsent))
 	for i := 0; i < nb; i++ {
 		m := "x/o/k" + strconv.Itoa(i)
 		zzvrt.Assume(zzvrt.Or(zzvrt.DIs(d, m, zzvrt.KAbsent), zzvrt.DIs(d, m, zzvrt.KString)))
